@@ -6,8 +6,13 @@ From Coq Require Import ZArith Lia.
 Lemma safe_j (upper : bool) : safe_rest [if upper then ch_J else ch_j] = true.
 Proof. destruct upper; reflexivity. Qed.
 
-Lemma cap_ok_fin arg neg m e : cap_ok arg (FFin neg m e) = true.
-Proof. reflexivity. Qed.
+Lemma num_char_noi : forall s, forallb num_char s = true -> has_i s = false.
+Proof.
+  intros s H. unfold has_i.
+  assert (G : forall k, num_char k = false -> mem k s = false).
+  { intros k Hk. destruct (mem k s) eqn:E; [|reflexivity]. apply mem_In in E. rewrite forallb_forall in H. apply H in E. congruence. }
+  rewrite (G 105 eq_refl), (G 73 eq_refl), (G 304 eq_refl). reflexivity.
+Qed.
 
 (* a rendered mantissa is digits followed by a stopper, or digits alone *)
 Lemma render_mant_split ip fp ex tail : wf_mant ip fp = true ->
@@ -85,7 +90,7 @@ Proof.
     rewrite (py_float_plain U s NC NE).
     2:{ destruct s; [exact I | tauto]. }
     pose proof (strtod_rendered ip fp ex [] WM WE eq_refl) as ST. rewrite app_nil_r in ST. fold s in ST.
-    rewrite ST. reflexivity. }
+    rewrite ST. rewrite (cap_ok_fin_noi s (mant_value ip fp ex) I (num_char_noi s NC)). reflexivity. }
   rewrite HF. reflexivity.
 Qed.
 
@@ -112,10 +117,16 @@ Proof.
 Qed.
 
 Lemma hy_complex_fin s re im : py_complex U (strip_seps s) = Some (re, im) ->
-  (forall a, cap_ok a re = true) -> (forall a, cap_ok a im = true) -> hy_complex U s = Some (re, im).
+  has_i s = false -> is_fin re -> is_fin im -> hy_complex U s = Some (re, im).
 Proof.
-  intros H R I. unfold hy_complex. rewrite H. destruct (partition_plus (dropwhile is_pm s)) as [p1 p2].
-  destruct (has_j p1); [rewrite I | rewrite R]; destruct p2; try reflexivity; rewrite I; reflexivity.
+  intros H NI R I. unfold hy_complex. rewrite H.
+  destruct (partition_plus (dropwhile is_pm s)) as [p1 p2] eqn:E.
+  destruct (partition_plus_incl _ _ _ E) as [A B].
+  assert (N1 : has_i p1 = false) by (apply (has_i_incl p1 s); [intros c X; apply (dropwhile_incl is_pm s); apply A; exact X | exact NI]).
+  assert (N2 : has_i p2 = false) by (apply (has_i_incl p2 s); [intros c X; apply (dropwhile_incl is_pm s); apply B; exact X | exact NI]).
+  destruct (has_j p1).
+  - rewrite (cap_ok_fin_noi p1 im I N1). destruct p2; [reflexivity|]. rewrite (cap_ok_fin_noi _ im I N2). reflexivity.
+  - rewrite (cap_ok_fin_noi p1 re R N1). destruct p2; [reflexivity|]. rewrite (cap_ok_fin_noi _ im I N2). reflexivity.
 Qed.
 
 Theorem imag_literal_reads : forall ip fp ex upper, wf (CImag ip fp ex upper) = true ->
@@ -157,7 +168,7 @@ Proof.
     destruct (render_mant ip fp ex); [congruence | simpl; lia]. }
   rewrite (not_bare_j s LEN).
   assert (HC : hy_complex U s = Some (fzero, mant_value ip fp ex)).
-  { apply hy_complex_fin; [| intros; reflexivity | intros; reflexivity].
+  { apply hy_complex_fin; [| apply num_char_noi; exact NC | exact I | exact I].
     unfold py_complex. rewrite SS, TA, SU.
     apply (complex_inner_imag s (mant_value ip fp ex) upper); [destruct s; [congruence | exact FS] | exact ST]. }
   rewrite HC. reflexivity.
